@@ -129,7 +129,9 @@ func cloneHeader(in http.Header) http.Header {
 func (spCtx *serverPoolContext) prepareRequest(svr *Server, ctx stdcontext.Context, mirror bool) error {
 	req := spCtx.req
 
-	url := svr.URL + req.Path()
+	// use the escaped form of the path: the decoded one may contain '?',
+	// '#' or '%', which must not be parsed again as URL delimiters.
+	url := svr.URL + req.Std().URL.EscapedPath()
 	if rq := req.Std().URL.RawQuery; rq != "" {
 		url += "?" + rq
 	}
